@@ -1,6 +1,7 @@
 package ext
 
 import (
+	"github.com/alligator/jqawk/cli"
 	lang "github.com/alligator/jqawk/src"
 	"github.com/alligator/jqawk/zzverif/vh"
 )
@@ -88,6 +89,10 @@ var c10Residue = []string{
 	"function f(n) { if (n > 0) return f(n - 1); return 0 }\nBEGIN { print f(50); x = match (1) { 1 => 'a' } }",
 	"BEGIN { a = []; b = []; a.push(b.push(1)); print a, b; exit }",
 	"BEGIN { print 1 / 0 }",
+	// runs that fail half way through a builtin that builds its result piecewise
+	"BEGIN { printf('left over %s', 5) }",
+	"BEGIN { printf('abc %5q|', 1) }",
+	"BEGIN { x = json([1, [2, nosuchfn]]); print 'a'.split(5) }",
 	// a run that uses the names of builtins and methods for its own variables
 	"BEGIN { json = 1; num = 'n'; printf = [2]; length = 3; push = 4; pluck = 5 }",
 	"BEGIN { for (num in [1, 2]) { json = num } for (printf, json in {a: 1}) { } }",
@@ -165,4 +170,31 @@ func VHC10Chunking() {
 	vh.Reach("packings compared")
 	vh.Assert(r1.k == r2.k && r1.jk == r2.jk, "C10: the outcome does not depend on how the input bytes are split into reads")
 	vh.Assert(r1.out == r2.out && r1.json == r2.json, "C10: the output does not depend on how the input bytes are split into reads")
+}
+
+// VHC10Cli: what the command line writes with -o FILE is a function of this run's program
+// and input alone: a FILE left behind by an earlier run (of a longer or shorter result) has
+// no influence.
+func VHC10Cli() {
+	long := map[string]any{"k": []any{"a long value", "another long value", 12345.0}, "z": "tail"}
+	short := map[string]any{"k": vh.Choose("b", 2) == 1}
+	order := vh.Choose("order", 2) // which result the earlier run left behind
+	first, second := long, short
+	if order == 1 {
+		first, second = short, long
+	}
+	run := func(doc any, existing string, has bool) vh.ProcResult {
+		p := &vh.Proc{Texts: map[string]string{}, Data: map[string]*vh.DocStream{"in.json": {Items: []any{doc}}}}
+		if has {
+			p.Texts["out.json"] = existing
+		}
+		p.Args = []string{"-o", "out.json", "{ n++ }", "in.json"}
+		return vh.RunCLI(cli.Run, p)
+	}
+	r1 := run(first, "", false)
+	r2 := run(second, r1.Written["out.json"], true)
+	fresh := run(second, "", false)
+	vh.Reach("runs of the tool compared")
+	vh.Assert(r1.Exit == 0 && r2.Exit == 0 && fresh.Exit == 0, "C10: the runs succeed")
+	vh.Assert(r2.Written["out.json"] == fresh.Written["out.json"] && r2.Stdout == fresh.Stdout, "C10: the JSON output file does not depend on what an earlier run left in it")
 }
